@@ -21,9 +21,13 @@ sys.path.insert(0, os.path.join(VERIF, "harness", "C12"))
 import peggen  # noqa: E402
 import pegref  # noqa: E402
 
-THEOREMS = [
-    "JanetModel.Props.C12.decode_sizes_agree",
-]
+THEOREMS = ["JanetModel.Props.C12." + t for t in (
+    "op_eq_den", "capLoad_restores", "opMatcher_eq_denMatcher", "entry_points_op_eq_den",
+    "find_all_agrees_with_repeated_match", "find_agrees_with_repeated_match", "find_first_error",
+    "lenprefix_leak_breaks_op_eq_den", "decode_sizes_agree")]
+# facts about the CURRENT peg.c (Gen/Peg.lean) that the model relies on; they fail to check on a tree with the defects
+TIE = ["JanetModel.Peg.Tie." + t for t in (
+    "lenprefix_mode_restored", "no_mode_leaks", "no_window_leaks", "number_capture_not_raw", "recursion_guard")]
 ENV = dict(os.environ, ASAN_OPTIONS="detect_leaks=0:abort_on_error=0", UBSAN_OPTIONS="print_stacktrace=1")
 HASHES = os.path.join(VERIF, "harness", "C12", "case_hashes.json")
 ENTRIES = ("match", "find", "findall", "replace", "replaceall")
@@ -470,6 +474,7 @@ def run(ctx, only_cases=None):
     ctx.broken += broken
     # (B,C)
     broken += ctx.obligations("JanetModel.Props.C12", THEOREMS)
+    broken += ctx.obligations("JanetModel.Peg.Tie", TIE)
     if not quick:
         ok, log = ctx.leanchecker("JanetModel.Props.C12")
         if not ok:
